@@ -45,12 +45,8 @@ TECHNIQUE = 'Coq proof over a hand-written model of the scan + randomised corres
 TAGS = ['', 'a', 'b', 'heralded', 'final', 'parity']     # generated programs use the first five; 'parity' comes from the library
 RELS = ['F', 'S', 'E']
 MAX_MEAS = 48
-KNOWN_SUBSEQ = ('implicitly sequenced overlap-free program without repetition that contains a sub-circuit: same-qubit measurements '
-                'are not listed in start-time order')
-KNOWN_UNROLL = ('implicitly sequenced overlap-free program with an unrolled repetition >= 2: same-qubit measurements are not listed '
-                'in start-time order')
-KNOWN_ALIAS = ('circuit listed before it is copied (nested or unrolled) while it contains a sub-circuit with the same repetition count '
-               'and a measurement outside that sub-circuit')
+KNOWN_ALIAS = ('circuit listed (operations or any acquisition index read) before it is copied by nesting or unrolling, while it contains a '
+               'relation-free sub-circuit with the same repetition count and a measurement outside that sub-circuit')
 
 
 # ----------------------------------------------------------------------------------------- program helpers
@@ -187,7 +183,9 @@ def corpus():
         P([M(0, 3), X(1), S([M(1, 1), M(0, 1, 'top'), S([M(2, 0), M(1, 1)], rep=2)], rep=2), {'op': 'Barrier', 'q': [0, 1, 2]}, M(0, 4), M(1, 4), M(2, 4)]),
         # malformed: registry of an unrelated circuit -> (-1, -1), the others keep counting it
         P([M(0), M(0, 0, 'unrelated'), M(1), M(0, 4)]),
-        # F13 / F14 witnesses (known findings): listing order of same-qubit measurements is not their start-time order
+        # regression cases for the start-time clause.  1st: former F13, a false alarm of this check (DESIGN 8.3): the outer M q0 overlaps the
+        # nested block that holds q0, so the premise "free of channel overlaps" fails and the case must PASS.  2nd: F14 (fixed in 9e78ed9):
+        # the unrolled listing interleaved the passes, q1 indices 0..5 started at 0, 2, 7, 4, 9, 11.
         P([S([{'op': 'Wait', 'q': 1, 'd': 20}, {'op': 'Barrier', 'q': [0, 1]}, M(0)]), X(2), {'op': 'Barrier', 'q': [0, 2]}, M(0, 1)]),
         P([{'op': 'Wait', 'q': 0, 'd': 28}, M(1), M(1), M(1)], rep=2),
         # F12 witnesses (known finding): listed, then unrolled / nested
@@ -217,7 +215,9 @@ def c_obs(o):
     byt = clist([f"({cz(q)}, {cz(t)}, {c_zl(l)})" for q, t, l in o['by_tag']])
     stim = f"(Some ({c_zl(o['stim_m'])}, {cz(o['stim_n'])}))" if 'stim_m' in o else "None"
     sched = clist([f"({clist([f'MkChannelIdentifier {cz(q)} QubitChannel_{ch}' for q, ch in chs])}, {cz(st)}, {cz(en)})" for chs, st, en in o['sched']])
-    return (f"(MkObs {c_listing(o['listing'])} {sched} {clist([c_listing(r) for r in o['regs']])} {meas} {byq} {byt} {stim} "
+    chans = lambda chs: clist([f'MkChannelIdentifier {cz(q)} QubitChannel_{ch}' for q, ch in chs])
+    subs = clist([f"({chans(chs)}, {cz(st)}, {cz(en)}, {clist([str(i) + '%nat' for i in mem])})" for chs, st, en, mem in o['subcircuits']])
+    return (f"(MkObs {c_listing(o['listing'])} {sched} {subs} {clist([c_listing(r) for r in o['regs']])} {meas} {byq} {byt} {stim} "
             f"{cbool(o['uids_consistent'])})")
 
 
@@ -278,32 +278,84 @@ def contains_meas_outside(circ, skip):
 
 
 def descendants(circ):
-    """sub-circuit commands strictly inside circ, with the chain of enclosing commands"""
+    """sub-circuit commands strictly inside circ"""
     for c in subs_of(circ):
         yield c
         yield from descendants(c['circ'])
 
 
+LEAF_CHANNELS = {'M': ['READOUT'], 'Wait': ['ALL'], 'Rx180': ['MICROWAVE'], 'CPhase': ['FLUX', 'MICROWAVE'], 'Barrier': ['ALL']}
+
+
+def raw_channels(cmd):
+    """qubit -> set of channel names the command (a leaf, or a sub-circuit with everything inside it) touches"""
+    out = {}
+    if cmd['op'] == 'sub':
+        for c in cmd['circ']['cmds']:
+            for q, chs in raw_channels(c).items():
+                out.setdefault(q, set()).update(chs)
+    else:
+        qs = cmd['q'] if isinstance(cmd['q'], list) else [cmd['q']]
+        for q in qs:
+            out.setdefault(q, set()).update(LEAF_CHANNELS[cmd['op']])
+    return out
+
+
+def certainly_share_channel(a, b):
+    """The implementation decides "shares a channel" on channel_identifiers, which for a sub-circuit is unique_in_order() of the
+    identifiers inside it under the wildcard equality of ChannelIdentifier (ALL equals everything on the same qubit): which of several
+    equal identifiers survives depends on the listing order.  This test only answers True when every possible outcome has a match."""
+    ra, rb = raw_channels(a), raw_channels(b)
+    leaf_b = b['op'] != 'sub'
+
+    def covers(q, ch):          # b certainly keeps an identifier equal to (q, ch), ch != ALL
+        chs = rb.get(q, set())
+        return ch in chs or ('ALL' in chs and (leaf_b or chs == {'ALL'}))
+    for q, chs in ra.items():
+        if not rb.get(q):
+            continue
+        if chs == {'ALL'} or (a['op'] != 'sub' and 'ALL' in chs):
+            return True
+        if any(covers(q, ch) for ch in chs if ch != 'ALL'):
+            return True
+    return False
+
+
+def head_subs(circ):
+    """sub-circuit commands of circ that may be relation-free: nothing added before them certainly shares a channel with them
+    (a sub-circuit never carries a relation of its own into add(); it is placed after the last-listed operation sharing a channel)"""
+    for i, c in enumerate(circ['cmds']):
+        if c['op'] == 'sub' and not any(certainly_share_channel(p, c) for p in circ['cmds'][:i]):
+            yield c
+
+
+def head_descendants(circ):
+    """sub-circuits reached from circ through relation-free sub-circuits only: listing circ hands circ's relation link to exactly these"""
+    for c in head_subs(circ):
+        yield c
+        yield from head_descendants(c['circ'])
+
+
 def alias_possible(case):
-    """Syntactic family of F12.  Listing a circuit C hands C's relation link to its relation-free sub-circuits, which makes such a
-    sub-circuit S `==` C (dataclass equality: relation, repetition strategy; graphs always compare equal) when the repetition counts
-    are equal.  A later copy of a composite holding both S and a measurement attached to C then re-targets the measurement's registry
-    through a dict lookup that finds S's copy.  Copies happen when a circuit is nested (add) or a repetition >= 2 is unrolled."""
+    """Syntactic family of F12.  Listing a circuit C hands C's relation link to its relation-free sub-circuits (recursively), which makes
+    such a sub-circuit S `==` C (dataclass equality: relation, repetition strategy; graphs always compare equal) when the repetition
+    counts are equal.  A later copy of a composite holding both S and a measurement attached to C then re-targets the measurement's
+    registry through a dict lookup that finds S's copy.  Copies happen when a circuit is nested (add) or a repetition >= 2 is unrolled."""
     top = case['circ']
     rt = top.get('rep', 1)
     if case.get('observe_before'):
         # unrolling the outer circuit itself: keys are compared with (link, rep_top)
-        if rt >= 2 and any(s['circ'].get('rep', 1) == rt and contains_meas_outside(top, s) for s in descendants(top)):
+        if rt >= 2 and any(s['circ'].get('rep', 1) == rt and contains_meas_outside(top, s) for s in head_descendants(top)):
             return True
         # unrolling a nested block K (the outer repetition is already reset to 1 then): keys are compared with (link, 1)
-        for k in descendants(top):
+        for k in head_descendants(top):
             if k['circ'].get('rep', 1) >= 2 and any(s['circ'].get('rep', 1) == 1 and contains_meas_outside(k['circ'], s)
-                                                    for s in descendants(k['circ'])):
+                                                    for s in head_descendants(k['circ'])):
                 return True
     for c in descendants(top):
         if c.get('observe'):
             rc = c['circ'].get('rep', 1)
-            for s in descendants(c['circ']):
+            for s in head_descendants(c['circ']):
                 rs = s['circ'].get('rep', 1)
                 if (rs == rc or rs == rt) and contains_meas_outside(c['circ'], s):
                     return True
@@ -339,43 +391,11 @@ def explained_by_alias(o):
     return True
 
 
-def indices_exact(a):
-    """every clause of the statement except the start-time clause holds on the output (recomputed here only to *classify* a failure)"""
-    ms = a['meas']
-    if not a.get('uids_consistent') or len({m['uid'] for m in ms}) != len(ms):
-        return False
-    if [tuple(it[1:]) for it in a['listing'] if it[0] == 1] != [(m['q'], m['tag'], m['uid']) for m in ms]:
-        return False
-    for i, m in enumerate(ms):
-        if m['att'] != 0 or m['ci'] != i or m['qi'] != sum(1 for x in ms[:i] if x['q'] == m['q']):
-            return False
-    if a.get('stim_m') != [m['q'] for m in ms] or a.get('stim_n') != len(ms):
-        return False
-    if any(l != [m['qi'] for m in ms if m['q'] == q] for q, l in a['by_qubit']):
-        return False
-    if any(l != [m['qi'] for m in ms if m['q'] == q and m['tag'] == t] for q, t, l in a['by_tag']):
-        return False
-    return {m['q'] for m in ms} <= {q for q, _ in a['by_qubit']} and {(m['q'], m['tag']) for m in ms} <= {(q, t) for q, t, _ in a['by_tag']}
-
-
-def time_inverted(a):
-    ms = a['meas']
-    return any(x['q'] == y['q'] and x['start'] < y['start'] and not x['qi'] < y['qi'] for x in ms for y in ms)
-
-
 def known_class(c, o):
     if 'error' in o or 'after' not in o or not wellformed(c) or is_lib(c):
         return None
-    a = o['after']
-    if any(m['qi'] < 0 or m['ci'] < 0 for m in a['meas']):
-        return KNOWN_ALIAS if alias_possible(c) and explained_by_alias(o) else None
-    # no -1 anywhere: the only clause that may have failed inside a known class is the start-time clause
-    if has_rel(c['circ']) or not indices_exact(a) or not time_inverted(a):
-        return None
-    if max_rep(c['circ']) >= 2:
-        return KNOWN_UNROLL
-    if depth(c['circ']) >= 1:
-        return KNOWN_SUBSEQ
+    if alias_possible(c) and explained_by_alias(o):
+        return KNOWN_ALIAS
     return None
 
 
